@@ -74,7 +74,17 @@ pub fn exec_util(ev: &mut Value) {
         "msb" => {
             let ty = ev["ty"].as_str().unwrap().to_string();
             let v = parse_sym(&ev["v"]).1;
-            let out = guard(|| for_uty!(ty.as_str(), |T| msb(v as T) as i64)).unwrap_or(PANIC);
+            // signed carriers too (non-negative values only: the index of the highest set bit)
+            let out = guard(|| match ty.as_str() {
+                "i8" => msb(v as i8) as i64,
+                "i16" => msb(v as i16) as i64,
+                "i32" => msb(v as i32) as i64,
+                "i64" => msb(v as i64) as i64,
+                "isize" => msb(v as isize) as i64,
+                "i128" => msb(v as i128) as i64,
+                t => for_uty!(t, |T| msb(v as T) as i64),
+            })
+            .unwrap_or(PANIC);
             set(ev, "out", json!(out));
         }
         "part4" | "part2" => {
